@@ -446,6 +446,8 @@ class BqModels(Models):
                 store(0, nv)
                 return ("st", ())
             return nv
+        if S(r"Digest>::digest$") and len(args) == 1 and re.search(r"Sha512|CoreWrapper", " ".join(names) + " " + str(t.get("gargs") or "")):
+            return ("hd", (describe(D(0)),))          # one-shot form: new().chain_update(data).finalize()
         if S(r"(Digest|FixedOutput)>::(finalize|finalize_fixed)$") and args and D(0)[0] == "hs":
             return ("hd", D(0)[1])
         if S(r"core::convert::AsRef<\[u8; 64\]>>::as_ref$|generic_array::GenericArray.*(as_ref|as_slice|deref)$|core::convert::Into<\[u8; 64\]>>::into$|core::convert::From<.*GenericArray.*>::from$") and args and D(0)[0] == "hd":
@@ -486,7 +488,11 @@ class BqModels(Models):
 
 
 class BqInterp(Interp):
-    pass
+    def read_path(self, v, path, ty_hint=None):
+        # MontgomeryPoint is a newtype around its 32 bytes: field 0 of a symbolic Montgomery point is its encoding (what to_bytes() returns)
+        if v is not None and v[0] == "mpt" and path and path[0] == ("f", 0):
+            return super().read_path(("mbytes", v), path[1:], ty_hint)
+        return super().read_path(v, path, ty_hint)
 
 
 def batch_inputs(F, n):
